@@ -26,7 +26,9 @@ def rand_date(rng):
     off = sign * (zh * 3600 + zm * 60)
     tz = datetime.timezone(datetime.timedelta(seconds=off))
     dt = datetime.datetime(y, mo, d, h, mi, s, tzinfo=tz)
-    text = "%s, %02d %s %04d %02d:%02d:%02d %s%02d%02d" % (DAYS[dt.weekday()], d, MONTHS[mo - 1], y, h, mi, s, "+" if sign > 0 else "-", zh, zm)
+    # Policy 4.4: "dd" is a one- or two-digit day of the month ("Mon, 2 Jan 2006", also written space-padded "Mon,  2 Jan 2006")
+    dd = ("%02d" % d) if d >= 10 else rng.choice(["%02d" % d, "%d" % d, " %d" % d])
+    text = "%s, %s %s %04d %02d:%02d:%02d %s%02d%02d" % (DAYS[dt.weekday()], dd, MONTHS[mo - 1], y, h, mi, s, "+" if sign > 0 else "-", zh, zm)
     return text.encode(), int(dt.timestamp()), off
 
 
@@ -251,7 +253,7 @@ def run(chk):
         if i.startswith("ok") and count_entries(i) < headers(t):
             chk.violate({"kind": "property", "case": lib.show_case(("clparse", [t])), "impl": i[:1500], "header_lines": headers(t),
                          "explanation": "fewer entries than header lines were returned without an error"})
-    chk.assumptions += ["time.Parse(RFC1123Z) and version.Parse are oracles of the model; the tie asks the real time.Parse directly and uses the C03 model for versions",
+    chk.assumptions += ["time.Parse (layout: RFC1123Z with a one- or two-digit day) and version.Parse are oracles of the model; the tie asks the real time.Parse directly and uses the C03 model for versions",
                         "the options map is compared sorted by key (last duplicate wins)"]
 
 
